@@ -96,6 +96,28 @@ def check(repo: Repo) -> Result:
         if sym == "*":
             res.check(not asym, f"{dunder}:table-commutes", fn.where(), "u * v and v * u are equal units (same offset; equality reads scale, offset, dimension)" + (f" - {asym[0]}" if asym else ""), found=asym[:3], rid=r1)
 
+    # R5: the power laws are computed by sympy on the dimension expressions: (x**a)**b collapses to x**(a*b) for
+    # fractional b only when x is known to be positive.  Every base dimension must therefore be a positive Symbol
+    # (sibling agreement over the entries of base_dimensions), spelled "(<its name>)"
+    r5 = res.rule("C05-R5", "every base dimension is a sympy Symbol declared positive (otherwise (u**p)**q and u**(p*q) have different dimension expressions)", floor=8)
+    dm = repo.mod("unyt/dimensions.py")
+    bd = dm.assign("base_dimensions")
+    if not isinstance(bd, (ast.List, ast.Tuple)):
+        raise AnalysisError("unyt/dimensions.py: base_dimensions is not a literal list")
+    for e in bd.elts:
+        nm = norm(e)
+        d = dm.assigns.get(nm)
+        if not d or len(d) != 1:
+            raise AnalysisError(f"unyt/dimensions.py: definition of base dimension {nm} not found")
+        d = d[0]
+        if isinstance(d, ast.Call) and norm(d.func) in ("sympify", "S", "Integer") and len(d.args) == 1 and isinstance(d.args[0], ast.Constant) and d.args[0].value == 1:
+            res.ok(f"dimension:{nm}:one", r5)
+            continue
+        is_sym = isinstance(d, ast.Call) and dm.qual(d.func) in ("sympy.Symbol", "sympy.core.symbol.Symbol") and d.args and isinstance(d.args[0], ast.Constant)
+        pos = kwarg_of(d, "positive") if is_sym else None
+        res.check(is_sym and isinstance(pos, ast.Constant) and pos.value is True, f"dimension:{nm}:positive", f"unyt/dimensions.py {nm}", f"base dimension {nm} must be Symbol(..., positive=True): without the assumption sympy keeps ((x)**2)**(1/2) unevaluated, so (cd**2)**0.5 is not cd", "Symbol('(" + nm + ")', positive=True)", norm(d), rid=r5)
+        res.check(is_sym and d.args[0].value == f"({nm})", f"dimension:{nm}:spelling", f"unyt/dimensions.py {nm}", "a base dimension prints as its own name in parentheses (that text is what JSON stores and what unit text is re-read against)", f"({nm})", norm(d.args[0]) if is_sym else norm(d), rid=r5)
+
     # R2: footprint of == and hash
     r2 = res.rule("C05-R2", "Unit.__eq__ reads exactly base_value, base_offset, dimensions (after isinstance); __hash__ reads exactly registry.unit_system_id and expr", floor=3)
     fn = uo.func("Unit.__eq__")
@@ -236,4 +258,5 @@ MUTANTS = [
     Mutant("mul-null-fastpath-right-registry", UO, "Unit.__mul__", "        base_offset = 0.0\n        if self.base_offset or u.base_offset:\n            if u.dimensions", "        if self.expr is sympy_one and self.base_value == 1.0:\n            return u.copy()\n        base_offset = 0.0\n        if self.base_offset or u.base_offset:\n            if u.dimensions", ("C05-R1",)),
     Mutant("mul-null-fastpath-left-copy", UO, "Unit.__mul__", "        base_offset = 0.0\n        if self.base_offset or u.base_offset:\n            if u.dimensions", "        if u.expr is sympy_one and u.base_value == 1.0:\n            return self.copy()\n        base_offset = 0.0\n        if self.base_offset or u.base_offset:\n            if u.dimensions", (), benign=True),
     Mutant("div-scale-multiplied", UO, "Unit.__truediv__", "base_value=(self.base_value / u.base_value)", "base_value=(self.base_value * u.base_value)", ("C05-R1",)),
+    Mutant("dimension-not-positive", "unyt/dimensions.py", None, 'luminous_intensity = Symbol("(luminous_intensity)", positive=True)', 'luminous_intensity = Symbol("(luminous_intensity)")', ("C05-R5",)),
 ]
